@@ -229,14 +229,42 @@ Definition kv_support (kv : KV) : Qc * Qc := (kn (fst kv) 0, kn (fst kv) (length
 Definition bf_fixed (f : bsp) (axis side : nat) : Qc :=
   let s := kv_support (nth axis (kvs f) ([], 0%nat)) in if Nat.eqb side 0 then fst s else snd s.
 (* eval: x.insert(len(x) - axis, fixed); f( *x ) *)
-Definition bf_call (val : list Qc -> Qc) (axis : nat) (fixed : Qc) (xs : list Qc) : Qc :=
+Definition bf_call {A B} (val : list A -> B) (axis : nat) (fixed : A) (xs : list A) : B :=
   val (insert_at (length xs - axis) fixed xs).
 (* grid_eval: gridaxes.insert(axis, [fixed]) *)
-Definition bf_grid (val : list Qc -> Qc) (axis : nat) (fixed : Qc) (us : list Qc) : Qc :=
+Definition bf_grid {A B} (val : list A -> B) (axis : nat) (fixed : A) (us : list A) : B :=
   val (insert_at axis fixed us).
 (* grid_jacobian: drop column jacs.shape[-1] - axis - 1 *)
-Definition bf_jac (jac : list Qc -> list Qc) (axis : nat) (fixed : Qc) (us : list Qc) : list Qc :=
+Definition bf_jac {A B} (jac : list A -> list B) (axis : nat) (fixed : A) (us : list A) : list B :=
   let J := jac (insert_at axis fixed us) in remove_at (length J - axis - 1) J.
+
+(* support property / setter (bspline.py:1038-1052, geometry.py:212-223): the override if one was
+   set, else the supports of the knot vectors *)
+Definition support_of (ov : option (list (Qc * Qc))) (f : bsp) : list (Qc * Qc) :=
+  match ov with Some s => s | None => map kv_support (kvs f) end.
+Definition r_fixed (ov : option (list (Qc * Qc))) (f : bsp) (axis side : nat) : Qc :=
+  let s := nth axis (support_of ov f) (0, 0) in if Nat.eqb side 0 then fst s else snd s.
+(* boundary() (bspline.py:1024-1036, geometry.py:198-210): with a support override the generic
+   _BoundaryFunction at support[axis][side], else the function of the sliced coefficients *)
+Definition r_boundary_val (ov : option (list (Qc * Qc))) (f : bsp) (axis side : nat) (us : list Qc) (c : nat) : Qc :=
+  match ov with
+  | Some _ => bf_grid (fun u => g_val f u c) axis (r_fixed ov f axis side) us
+  | None => g_val (boundary f axis side) us c
+  end.
+
+(* ComposedFunction (geometry.py:341-378), geo = geo2 o geo1 with B-spline operands:
+   XY = geo1.grid_eval(grd); np.rollaxis(XY, -1): component i of geo1 is coordinate i (xyz) of geo2 *)
+Definition comp_point (f1 : bsp) (us : list Qc) : list Qc := map (g_val f1 us) (seq 0 (nc f1)).
+(* grid_eval: geo2.pointwise_eval(...) *)
+Definition comp_val (f2 f1 : bsp) (us : list Qc) (c : nat) : option Qc :=
+  pw_val sel_fixed f2 (comp_point f1 us) c.
+(* grid_jacobian: np.matmul(jac2, jac1), row c; for a scalar geo2 (gradient array, repaired in f32eb60)
+   matmul(jac2[..., None, :], jac1)[..., 0, :] is the same row for c = 0 *)
+Definition comp_jac (f2 f1 : bsp) (us : list Qc) (c : nat) : option (list Qc) :=
+  match pw_jac sel_fixed f2 (comp_point f1 us) c with
+  | Some J2c => Some (map (fun j => rdot 0 J2c (fun a => nth j (g_jac f1 us a) 0)) (seq 0 (sdim f1)))
+  | None => None
+  end.
 
 (* ------------------------------------------------------------------ *)
 (* operations on coefficients                                          *)
@@ -277,6 +305,13 @@ Definition b_select (f : bsp) (cs : list nat) : bsp :=
   mk_bsp (kvs f) (fun idx c => co f idx (nth c cs 0%nat)) (length cs).
 Definition b_getitem (f : bsp) (I : nat) : bsp := b_select f [I].
 Definition b_as_nurbs (f : bsp) : bsp := mk_nurbs (kvs f) (co f) (fun _ => 1) (nc f).
+(* copy (bspline.py:1054-1058; geometry.py:225-231 with premultiplied=True: no second premultiplication) *)
+Definition b_copy (f : bsp) : bsp := mk_bsp (kvs f) (fun idx c => co f idx c) (nc f).
+(* line_segment(z0, z1, support=(s0, s1)) with one interval (geometry.py:595-615) and
+   cylinderize = tensor_product(line_segment(z0, z1, support), self) (bspline.py:1097-1106) *)
+Definition line_kv (s0 s1 : Qc) : KV := ([s0; s0; s1; s1], 1%nat).
+Definition b_line (z0 z1 s0 s1 : Qc) : bsp :=
+  mk_bsp [line_kv s0 s1] (fun idx _ => if Nat.eqb (nth 0 idx 0%nat) 0 then z0 else z1) 1.
 
 (* NurbsFunc.translate/scale/apply_matrix/__getitem__ (geometry.py:238-286) *)
 Definition n_translate (f : bsp) (off : nat -> Qc) : bsp :=
@@ -316,6 +351,8 @@ Definition n_tensor_product (f1 f2 : bsp) : bsp :=
   mk_nurbs (kvs f1 ++ kvs f2)
            (fun idx c => if (c <? wcomp f2)%nat then n_C f2 (split2 f1 idx) c else n_C f1 (split1 f1 idx) (c - wcomp f2))
            (fun idx => n_W f1 (split1 f1 idx) * n_W f2 (split2 f1 idx)) (wcomp f2 + wcomp f1).
+
+Definition b_cylinderize (f : bsp) (z0 z1 s0 s1 : Qc) : bsp := b_tensor_product (b_line z0 z1 s0 s1) f.
 
 (* ------------------------------------------------------------------ *)
 (* arrays from flat data (C order), used by the correspondence run     *)
